@@ -63,11 +63,14 @@ def oracle(core, c, r=None):
     r = r or c03.impl(core, c)
     if r[0] == "ERR":
         return [f"solver raised {r[1]}: {r[2]}"]
-    if G.near_discontinuity(c):
+    if G.near_discontinuity(c) or c["regime"] not in (4, 6):
         return []
     Ad, fd = spec_python(c)
     sa = max(1.0, float(np.abs(Ad).max()))
     sf = max(1e-300, float(np.abs(fd).max()), 1e-9 * c["M"] * c["phi"])
+    if c.get("relscale"):       # inputs of any magnitude: relative to the size of the published model's rates
+        sa = max(float(np.abs(Ad).max()), 1e-300)
+        sf = max(float(np.abs(fd).max()), 1e-300)
     fails = []
     if np.abs(r[1] - Ad).max() > 1e-8 * sa:
         g = int(np.unravel_index(np.abs(r[1] - Ad).argmax(), Ad.shape)[0])
@@ -117,7 +120,8 @@ def run(chk):
         "theorems need deformation_exponent <> 0; the real power function is modelled by Rpow (x^0 = 1, 0^y = 0 for y <> 0, else exp(y ln x))",
     ]
     chk.cov["rule"] = ("same generator as C03 (structured degenerate stream + seeded random over all valid phase/fabric pairs, both regimes, 5 flow families, "
-                       "4 volume families, parameter ranges of the quantifier); each case is evaluated by the compiled implementation, the interpreted source "
+                       "4 volume families, parameter ranges of the quantifier; deformation exponent on the grid {2, 2.5, ..., 5}; L of magnitude 1e-15 .. 1e12; ordinals spelled as "
+                       "plain ints, enum members, numpy ints, mixed, positional / keyword arguments); each case is evaluated by the compiled implementation, the interpreted source "
                        "(NUMBA_DISABLE_JIT=1, cases with <= 64 grains), the extracted list model `derivs` and the extracted published model `spec_derivs`; "
                        "cases within 1e-9 relative of an activity tie that involves the LEAST active system (a discontinuity of the model) are excluded from value comparison and "
                        "counted in near_discontinuity; near ties among the most active systems (model continuous: generated family with opposite / equal invariant signs, gap 0..5e-10) "
@@ -138,6 +142,12 @@ def run(chk):
         bad += [(c, "published model: " + m) for c, m in c03.compare(chk, core, spec_cases, "spec_derivs")]
         small = [c for c in cases if c["ng"] <= 3]
         bad += c03.compare(chk, core, small, "kderivs")
+        # the same values with the ordinals spelled as enum members / numpy ints / mixed, positional and keyword arguments
+        pcases = [c for c in c03.presentation_cases(chk, chk.tier, spellings=None, layouts=(chk.tier != "quick"))
+                  if c["regime"] in (4, 6)]          # C02 (and the published model) cover the dislocation-type regimes
+        bad += c03.compare(chk, core, pcases, "derivs")
+        bad += [(c, "published model: " + m) for c, m in c03.compare(chk, core, pcases, "spec_derivs")]
+        cases = cases + pcases          # ... and through the interpreted source below
         # compiled vs interpreted
         sub = [c for c in cases if c["ng"] <= 64]
         ires = interpreted(sub)
@@ -153,7 +163,8 @@ def run(chk):
             elif r[0] == "OK" and not G.near_discontinuity(c):
                 a = list(r[1].reshape(-1)) + list(r[2])
                 b = list(ir[1].reshape(-1)) + list(ir[2])
-                okc, idx = common.vec_close(a, b, rtol=1e-9 if G.tie_class(c) == "none" else 1e-7)
+                rt = 1e-9 if G.tie_class(c) == "none" else 1e-7
+                okc, idx = c03.block_close(a, b, 9 * c["ng"], rt) if c.get("relscale") else common.vec_close(a, b, rtol=rt)
                 if not okc:
                     bad.append((c, f"compiled vs interpreted differ at component {idx}: {a[idx]!r} vs {b[idx]!r}"))
         chk.cov["compiled_vs_interpreted_cases"] = nint
